@@ -126,4 +126,50 @@ theorem no_range_no_partial (q : Req) (e : Ent) (now : Nat) (r : Resp)
         simp [hp, Br.resp, simpleResp, Resp.header, List.lookup_append, lookup_common_cr,
           lookup_ent_cr, lookup_cons_if]
 
+theorem rangesBr_m206 (e : Ent) (inc : Bool) (rs rs' : List (Nat × Nat)) (inc' : Bool)
+    (phs : List Bytes) (total : Nat) (hne : rs ≠ [])
+    (h : rangesBr e inc rs = .m206 rs' inc' phs total) :
+    2 ≤ rs.length ∧ rs' = rs ∧ small rs e.len = true := by
+  match rs, hne with
+  | [(a, b)], _ => simp [rangesBr] at h
+  | x :: y :: t, _ =>
+    simp only [rangesBr] at h
+    split at h
+    · rename_i hs
+      split at h
+      · simp only [Br.m206.injEq] at h; exact ⟨by simp, h.1.symm, hs⟩
+      · cases h
+    · cases h
+
+/-- A multipart body is sent only for at least two satisfiable ranges — a single range is never
+wrapped in multipart/byteranges (RFC 7233 section 4.1) — and only when the ranges' estimated
+total is below the entity's length; the parts are the resolved ranges, all of them, in order. -/
+theorem multipart_only_for_two_or_more (q : Req) (e : Ent) (now : Nat) (r : Resp)
+    (phs : List Bytes) (rs : List (Nat × Nat)) (total : Nat)
+    (h : serve q e now = .ok r) (hp : r.plan = .multipart phs rs total) :
+    2 ≤ rs.length ∧ small rs e.len = true ∧ r.status = 206 ∧
+    parseRange (if (ifRangeGate e.etag q.ifRange).1 then q.range else none) e.len = .ok (.sat rs) := by
+  obtain ⟨rfl, _⟩ := serve_ok h
+  cases hbr : classify q e with
+  | m206 rs' inc phs' total' =>
+    rw [hbr] at hp
+    simp only [Br.resp] at hp
+    split at hp
+    · cases hp
+    · simp only [Plan.multipart.injEq] at hp
+      obtain ⟨rfl, rfl, rfl⟩ := hp
+      unfold classify at hbr
+      split at hbr
+      · cases hbr
+      · unfold tailBr at hbr
+        split at hbr <;> try (cases hbr; done)
+        split at hbr <;> try (cases hbr; done)
+        rename_i rs0 hpr
+        obtain ⟨hne, _⟩ := parseRange_sat_bounds _ _ _ hpr
+        obtain ⟨h2, rfl, hs⟩ := rangesBr_m206 _ _ _ _ _ _ _ hne hbr
+        exact ⟨h2, hs, by simp [Br.resp], hpr⟩
+  | single a b inc => rw [hbr] at hp; simp [Br.resp, simpleResp] at hp; split at hp <;> cases hp
+  | full => rw [hbr] at hp; simp [Br.resp, simpleResp] at hp; split at hp <;> cases hp
+  | _ => rw [hbr] at hp; simp [Br.resp] at hp
+
 end HS
